@@ -247,6 +247,17 @@ class C08(Check):
         y2, m2 = s.value(xe[p])
         out.expect(bool(np.array_equal(y2, y[p], equal_nan=True)) and bool(np.array_equal(m2, mask[p])), 'order',
                    'value(x[p]) != value(x)[p]: results depend on the order of the evaluation points')
+        # ---- the same object evaluated again on a different set of points: nothing may be remembered from the first call
+        half = xe[: max(1, xe.size // 2)][::-1].copy()
+        y3, m3 = s.value(half)
+        yref3 = y[: max(1, xe.size // 2)][::-1]
+        fin = np.isfinite(yref3) & np.isfinite(y3)
+        # (not bitwise: the per-interval matrix products have other block shapes, BLAS may sum in another order)
+        close = bool(np.all(np.abs(y3[fin].astype('f8') - yref3[fin].astype('f8')) <= (1e-12 if case['xdtype'] == 'f8' else 1e-5) * cscale * k))
+        out.expect(close and bool(np.array_equal(np.isfinite(y3), np.isfinite(yref3))) and
+                   bool(np.array_equal(m3, mask[: max(1, xe.size // 2)][::-1])), 'order',
+                   'a second value() call on the same object with a subset of the points gave different values')
+        out.count('repeat_value_calls_same_object')
         # ---- (c) basis: non-negative, sums to one on the range
         xs = np.sort(xe[inside & ~at_discont])
         if xs.size:
